@@ -789,12 +789,17 @@ reg(Prop("C18", "Exchange evaluation matches the capture-sequence minimax it app
                          "(target often on the b-/g-file so that one is a rook pawn) - attacking the target directly, often from "
                          "the rim, each possibly with an own/enemy bishop/queen/rook directly behind it; random directions give "
                          "both orders of square numbering) x every legal move (Bsk: every move onto the target, 12 % of the others) "
-                         "x thresholds {v-1, v, v+1} around every partial balance of the capture sequence, a +-queen ladder, 0 and "
+                         "x piece-value table in force (75 % the table of the source; 25 % configuration mode: the exported heur.PieceValues is set for the call to one of 7 fixed alternative tables or a random monotone table pawn < knight <= bishop < rook < queen < king inside the no-wrap domain, restored afterwards; the table is part of the input, model and judge use it) "
+                         "x thresholds {v-1, v, v+1} around every partial balance of the capture sequence (in the table in force), a +-queen ladder, 0 and "
                          "(10 %) the int16 extremes; one case = (position, move); tags samekind>=2[+xray[-behind-lowest|-behind-higher|"
                          "-behind-inner-with-rim-sibling]]:K count the cases in which a side attacks the target with >= 2 pieces of kind "
                          "K, one of them with an x-ray piece behind it (the lowest-square one / another one / a non-rim one while a "
-                         "sibling stands on the rim); non-trivial = at least one recapture is possible; distinct by FEN + move")],
-         trusted=["attack primitives of the model are the geometric definitions (Spec/Geometry.v via Model/Att.v); the "
+                         "sibling stands on the rim); every pawn move onto the 3rd/6th rank and every eighth other case is ALSO evaluated after board.ParseFEN of the same position into a re-used board that held an en-passant square (tag also-on-reused-board; a deviating answer is the one reported); "
+                         "non-trivial = at least one recapture is possible; distinct by FEN + move + table")],
+         trusted=["the theorems are about the table of the source (Gen/SeeConsts.v); other tables in force are covered by the "
+                  "correspondence and the judge on the table-parametric copies Model/SeeT.v / Spec/SeeSpecT.v, whose instance at the "
+                  "generated table is proved equal to the model/specification of the theorems (C18_table_instance)",
+                  "attack primitives of the model are the geometric definitions (Spec/Geometry.v via Model/Att.v); the "
                   "engine's magic tables are tied to them by C12 and, here, by the c18 stream running the real tables",
                   "judge_c18 (Spec/SeeSpec.v all_balances) enumerates every choice among equally valued least attackers"],
          assumptions=["threshold within -20000..20000 (outside, the int16 Score arithmetic of see.go may wrap); "
